@@ -2,6 +2,7 @@ package sym
 
 import (
 	"fmt"
+	"go/types"
 
 	"verif/engine/smt"
 	"verif/engine/term"
@@ -17,6 +18,7 @@ import (
 	"encoding/json"
 	"fmt"
 	"os"
+	"reflect"
 )
 
 type vndTapeT struct {
@@ -122,6 +124,18 @@ func vndKnown(id string) bool {
 	return false
 }
 
+// vndDeepEqual is reflect.DeepEqual (the engine compares the symbolic values structurally).
+func vndDeepEqual(a, b interface{}) bool { return reflect.DeepEqual(a, b) }
+
+// vndIsNilPtr reports whether x holds a nil pointer.
+func vndIsNilPtr(x interface{}) bool {
+	if x == nil {
+		return false
+	}
+	v := reflect.ValueOf(x)
+	return v.Kind() == reflect.Ptr && v.IsNil()
+}
+
 func vndKnownHit(id string) {
 	vndLog = append(vndLog, "known:"+id)
 	vndKnownHits = append(vndKnownHits, id)
@@ -223,6 +237,15 @@ func (x *Exec) vnd(name string, args []Value) Value {
 		return nil
 	case "vndKnown":
 		return c.BoolC(x.openKnown[strArg(args[0])])
+	case "vndDeepEqual":
+		return x.deepEqual(args[0], args[1], 0)
+	case "vndIsNilPtr":
+		iv := args[0].(Iface)
+		if iv.T == nil {
+			return c.False()
+		}
+		p, ok := iv.V.(Ptr)
+		return c.BoolC(ok && p.IsNil())
 	case "vndKnownHit":
 		id := strArg(args[0])
 		x.events = append(x.events, Event{Kind: "known", Label: id, OK: true})
@@ -255,9 +278,15 @@ func (x *Exec) assumeChecked(cnd *term.Term) {
 			panic(pathEnd{"assume", "assumption infeasible"})
 		}
 		x.assume(cnd)
+		x.replayed()
 		return
 	}
-	r, _ := x.check(cnd, nil)
+	if v, ok := x.evalTerm(cnd); ok && v == 1 {
+		x.taken = append(x.taken, Decision{1, true})
+		x.assume(cnd)
+		return
+	}
+	r, m := x.check(cnd, x.ctx.Vars)
 	if r == smt.Unsat {
 		x.taken = append(x.taken, Decision{0, true})
 		panic(pathEnd{"assume", "assumption infeasible"})
@@ -266,11 +295,17 @@ func (x *Exec) assumeChecked(cnd *term.Term) {
 		x.inconcl = append(x.inconcl, "solver unknown at assume "+x.where())
 	}
 	x.taken = append(x.taken, Decision{1, true})
+	x.setModel(m)
 	x.assume(cnd)
 }
 
 func (x *Exec) assertOp(cnd *term.Term, label string) {
 	if cnd.IsTrue() {
+		x.events = append(x.events, Event{Kind: "assert", Label: label, OK: true})
+		x.trivAsserts++
+		return
+	}
+	if x.guard == nil && x.knownFact(cnd) == 1 {
 		x.events = append(x.events, Event{Kind: "assert", Label: label, OK: true})
 		x.trivAsserts++
 		return
@@ -289,9 +324,16 @@ func (x *Exec) assertOp(cnd *term.Term, label string) {
 		if d.Val == 0 {
 			x.assume(cnd)
 		}
+		x.replayed()
 		return
 	}
-	r, m := x.check(neg, x.tapeVars())
+	var r smt.Result
+	var m map[string]uint64
+	if v, ok := x.evalTerm(cnd); ok && v == 0 && x.guard == nil {
+		r, m = smt.Sat, x.model // the concolic model is already a counterexample
+	} else {
+		r, m = x.check(neg, x.ctx.Vars)
+	}
 	x.obligations++
 	switch r {
 	case smt.Unsat:
@@ -304,6 +346,11 @@ func (x *Exec) assertOp(cnd *term.Term, label string) {
 		x.inconcl = append(x.inconcl, fmt.Sprintf("solver unknown at assert %q %s", label, x.where()))
 		x.events = append(x.events, Event{Kind: "assert", Label: label, OK: true})
 	case smt.Sat:
+		if m = x.refineCRC(neg, m); m == nil {
+			// spurious under the CRC abstraction; the job will be re-run exactly
+			x.events = append(x.events, Event{Kind: "assert", Label: label, OK: true})
+			break
+		}
 		x.events = append(x.events, Event{Kind: "assert", Label: label, OK: false})
 		x.viol = append(x.viol, Violation{Kind: "assert", Label: label, Model: m, Where: x.where(), Events: append([]Event(nil), x.events...)})
 	}
@@ -315,9 +362,110 @@ func (x *Exec) assertOp(cnd *term.Term, label string) {
 		panic(pathEnd{"exit", "assertion failed on every input of this path"})
 	}
 	// continue on the inputs that satisfy the assertion (if any)
-	r2, _ := x.check(cnd, nil)
+	r2, m2 := x.check(cnd, x.ctx.Vars)
 	if r2 == smt.Unsat {
 		panic(pathEnd{"exit", "assertion failed on every input of this path"})
 	}
+	x.setModel(m2)
 	x.assume(cnd)
+}
+
+// deepEqual mirrors reflect.DeepEqual on engine values.
+func (x *Exec) deepEqual(a, b Value, depth int) *term.Term {
+	c := x.ctx
+	if depth > 12 {
+		x.unsupported("vndDeepEqual: structure too deep")
+	}
+	switch av := a.(type) {
+	case *term.Term:
+		bv, ok := b.(*term.Term)
+		if !ok || av.S != bv.S {
+			return c.False()
+		}
+		if av.S.K == term.KF64 {
+			x.unsupported("vndDeepEqual on floats")
+		}
+		return c.Eq(av, bv)
+	case Str:
+		bs, ok := b.(Str)
+		if !ok {
+			return c.False()
+		}
+		return x.strEq(av, bs)
+	case Iface:
+		bi, ok := b.(Iface)
+		if !ok {
+			return c.False()
+		}
+		if av.T == nil || bi.T == nil {
+			return c.BoolC(av.T == nil && bi.T == nil)
+		}
+		if !types.Identical(av.T, bi.T) {
+			return c.False()
+		}
+		return x.deepEqual(av.V, bi.V, depth+1)
+	case Ptr:
+		bp, ok := b.(Ptr)
+		if !ok {
+			return c.False()
+		}
+		if av.IsNil() || bp.IsNil() {
+			return c.BoolC(av.IsNil() && bp.IsNil())
+		}
+		if av.C == nil || bp.C == nil {
+			x.unsupported("vndDeepEqual on symbolic element pointers")
+		}
+		if av.C == bp.C {
+			return c.True()
+		}
+		return x.deepEqual(x.loadCell(av.C), x.loadCell(bp.C), depth+1)
+	case StructV:
+		bs, ok := b.(StructV)
+		if !ok || len(av.F) != len(bs.F) {
+			return c.False()
+		}
+		r := c.True()
+		for i := range av.F {
+			r = c.And(r, x.deepEqual(av.F[i], bs.F[i], depth+1))
+		}
+		return r
+	case ArrayV:
+		bs, ok := b.(ArrayV)
+		if !ok || len(av.E) != len(bs.E) {
+			return c.False()
+		}
+		r := c.True()
+		for i := range av.E {
+			r = c.And(r, x.deepEqual(av.E[i], bs.E[i], depth+1))
+		}
+		return r
+	case Slice:
+		bs, ok := b.(Slice)
+		if !ok {
+			return c.False()
+		}
+		if (av.Arr == nil) != (bs.Arr == nil) {
+			return c.False() // nil vs non-nil slice differ under DeepEqual
+		}
+		an, bn := x.cint(av.Len, "deepEqual len"), x.cint(bs.Len, "deepEqual len")
+		if an != bn {
+			return c.False()
+		}
+		if av.Arr == nil {
+			return c.True()
+		}
+		ao, bo := x.cint(av.Off, "deepEqual off"), x.cint(bs.Off, "deepEqual off")
+		r := c.True()
+		for i := 0; i < an; i++ {
+			r = c.And(r, x.deepEqual(x.loadCell(av.Arr.Kids[ao+i]), x.loadCell(bs.Arr.Kids[bo+i]), depth+1))
+		}
+		return r
+	case *Closure:
+		bc, _ := b.(*Closure)
+		return c.BoolC(av == nil && bc == nil)
+	case nil:
+		return c.BoolC(b == nil)
+	}
+	x.unsupported("vndDeepEqual on %T", a)
+	return nil
 }
